@@ -74,7 +74,7 @@ def run_c08(prop, tier, seed, replay=None):
     else:
         model = model_scenarios(work, rep, tier)
         n_model = len(model)
-        sb, lb, nrand, maxlen = (450, 300, 110, 5) if tier == "quick" else (100000, 6000, 1500, 6)
+        sb, lb, nrand, maxlen = (450, 300, 110, 5) if tier == "quick" else (100000, 5000, 800, 6)
         scns = select(model, seed, sb, lb)
         rf = work / "rand.scn.ndjson"
         harness("avh_c08", ["gen", "--seed", seed, "--count", nrand, "--maxlen", maxlen, "--out", rf])
@@ -107,8 +107,8 @@ def run_c08(prop, tier, seed, replay=None):
         " seeds, 1 step from the others; thorough: 3 steps from 2 seeds, 2 steps from 16, 1 step from the others) and checks"
         " the resolution laws (result conforms to R, idempotence, identity on W=R, safe steps always readable) on EVERY explored"
         " (W,R,value) under the grey-zone readings. Executed on the real crate: the seeds themselves, the one-step pairs (quick:"
-        " seeded sample of 450; thorough: all), a seeded sample of the longer ones (300 / 6000) and seeded random step sequences"
-        " of length <= 5/6 from random seed schemas (110 / 1500); each pair x each boundary value of W through the three entry"
+        " seeded sample of 450; thorough: all), a seeded sample of the longer ones (300 / 5000) and seeded random step sequences"
+        " of length <= 5/6 from random seed schemas (110 / 800); each pair x each boundary value of W through the three entry"
         " points, judged by Trace_Resolve.tla. evaluations = (W,R,value) triples executed; traces = (W,R) pairs;"
         " non-trivial = pairs with at least one step; distinct = distinct (W,R) hashes.")
     for s in scns[:1] + scns[len(scns) // 2: len(scns) // 2 + 2] + scns[-2:]:
